@@ -2,7 +2,7 @@
 (***************************************************************************)
 (* Gen + model checking + case emission for C08 (TLC only): every          *)
 (* (base kind x declared shape x well-typed path of at most MaxSteps steps *)
-(* x address depth x context) cell is an initial state; invariants Agree   *)
+(* x address depth x context) cell is a state; invariants Agree            *)
 (* (A = R) and Emit (one CASE per cell for the replay on the compiler).    *)
 (***************************************************************************)
 EXTENDS Mutability, TLC, Json, SequencesExt
@@ -54,20 +54,38 @@ YContexts == {"block", "loop", "then", "else", "elif_then", "elif_else", "elif2"
 \* ... and the places where a CALL with the address-of argument can stand inside a larger expression: the subscript of
 \* a read (`ta[f(&b)]`), the subscript of an assignment target, an operand of a binary operator, of a cast, of a
 \* comparison, an argument of a builtin.  The rule does not look at where the call stands.
-XContexts == {"paren", "elem", "member", "nested", "ret", "cond", "index", "index_set", "binop", "castop", "condcall", "builtin"}
+\* Dimension audit: the address expression as element / member of a literal in an INITIALISER (not an argument), as
+\* the value that re-seats a pointer variable (`&tq = &b`), as operand of a bit cast; the call with the address
+\* argument as operand of a unary operator, as assigned value; the address as second of two / middle of three
+\* arguments; the callee called twice in one statement, once with a harmless address, once with the one described.
+XContexts == {"paren", "elem", "member", "nested", "ret", "cond", "index", "index_set", "binop", "castop", "condcall", "builtin",
+              "initelem", "initmember", "reseat", "bitcast", "unop", "assigncall", "arg2", "argmid", "twice_r", "twice_l"}
 \* Sibling contexts of a whole-aggregate copy (read cells whose value is an array or a struct): the copy
 \* stands next to an expression that is evaluated EARLIER in the same statement -- a call with an argument
 \* in the index of the assignment target, in an earlier member of a struct literal, in an earlier nested
 \* array literal -- or next to the same shapes without a call / with a call without arguments.  The rule
 \* ignores what stands next to the copy.
 SibContexts == {"sib_idx", "sib_idx0", "sib_zero", "sib_member", "sib_member0", "sib_nested"}
-Contexts == {<<"direct", "top">>} \cup {<<"direct", y>> : y \in YContexts} \cup {<<x, "top">> : x \in XContexts}
-                \cup {<<"elem", "elif_then">>, <<"member", "elif2">>, <<"nested", "elif_else">>}
-                \cup {<<x, "top">> : x \in SibContexts} \cup {<<"sib_idx", "elif_then">>, <<"sib_member", "block">>}
+\* A SECOND unit next to the construct (field pre; the rule judges every construct on its own):
+\*   s_call                a legal call statement with an argument right before the construct
+\*   s_bad / s_bad_after   an independent illegal statement (assignment to a constant) before / after the construct
+\*   f_bad / f_bad_after   a function that assigns to its by-value parameter before / after the function of the construct
+\*   f_samename            a function before, in which a `var` of the SAME NAME as the base is legally mutated
+\* Flags of the enclosing function (field v): `pub fn t`, `extern fn t` -- parameters are immutable whatever the flags.
+Pres == {"s_call", "s_bad", "s_bad_after", "f_bad", "f_bad_after", "f_samename"}
+Contexts == {<<"direct", "top", "none", "">>} \cup {<<"direct", y, "none", "">> : y \in YContexts} \cup {<<x, "top", "none", "">> : x \in XContexts}
+                \cup {<<"elem", "elif_then", "none", "">>, <<"member", "elif2", "none", "">>, <<"nested", "elif_else", "none", "">>}
+                \cup {<<x, "top", "none", "">> : x \in SibContexts} \cup {<<"sib_idx", "elif_then", "none", "">>, <<"sib_member", "block", "none", "">>}
+                \cup {<<"direct", "top", p, "">> : p \in Pres}
+                \cup {<<"direct", "top", "none", f>> : f \in {"pub", "extern"}}
+                \cup {<<"direct", "loop", "s_bad", "">>, <<"direct", "label", "f_bad", "pub">>}
 
-Cells == {[kind |-> b[1], d |-> b[2], path |-> p, k |-> k, ctx |-> ctx, x |-> xy[1], y |-> xy[2]] :
-              b \in Bases, p \in UNION {PathsFrom(x[2], MaxSteps) : x \in Bases}, k \in 0..3,
-              ctx \in {"assign", "read", "arg", "argmiss", "argxp"}, xy \in Contexts}
+MkCell(b, p, k, ctx, q) == [kind |-> b[1], d |-> b[2], path |-> p, k |-> k, ctx |-> ctx, x |-> q[1], y |-> q[2], pre |-> q[3], v |-> q[4]]
+
+\* the independent neighbours, as cells judged by the same rule
+PreCell(p) == CASE p \in {"s_bad", "s_bad_after"} -> MkCell(<<"const", I32>>, <<>>, 0, "assign", <<"direct", "top", "none", "">>)
+                [] p \in {"f_bad", "f_bad_after"} -> MkCell(<<"param", I32>>, <<>>, 0, "assign", <<"direct", "top", "none", "">>)
+                [] OTHER -> MkCell(<<"var", I32>>, <<>>, 0, "assign", <<"direct", "top", "none", "">>)
 
 \* contexts are crossed with a reduced set of cells: statement contexts with paths of at most two steps,
 \* expression contexts with address-of arguments of a declarable pointer type (not the address of a view)
@@ -75,30 +93,49 @@ ContextOK(cl) ==
     LET F == Final(cl.d, cl.path)
         core == StripPtr(F)
         et == ExpectType(F, cl.k)
-    IN /\ (cl.ctx = "argxp" => cl.x = "direct")
+    IN /\ (cl.ctx = "argxp" => cl.x = "direct" /\ cl.v = "")
        /\ (cl.y # "top" => Len(cl.path) <= 2)
+       \* (a local variable named like a constant is a shadowing error of its own: no same-name function for constants)
+       /\ (cl.pre # "none" => Len(cl.path) <= 1 /\ ~(cl.pre = "f_samename" /\ cl.kind = "const"))
+       \* (the renderer has a second, harmless value of the pointer type only up to these depths)
+       /\ (cl.x \in {"reseat", "twice_r", "twice_l"} =>
+               et \in {Ptr(I32), Ptr(Ptr(I32)), Ptr(St("S")), Ptr(Ptr(St("S"))), Ptr(St("SP")), Ptr(St("SS")), Ptr(A2(I32)), Ptr(Wd)})
+       \* extern signatures: pointers and primitive types only (features.md "Interoperability with C")
+       /\ (cl.v # "" => /\ cl.kind = "param" /\ Len(cl.path) <= 1
+                        /\ (cl.v = "extern" => cl.d \in {I32, Ptr(I32), Ptr(Ptr(I32))}))
        /\ (cl.x \in SibContexts => /\ cl.ctx = "read" /\ cl.k = 0 /\ Len(cl.path) <= 2
                                      /\ Kind(et) \in {"arr", "struct"} /\ Declarable(et))
        /\ (cl.x \notin SibContexts \cup {"direct"} => /\ cl.ctx = "arg" /\ cl.k >= 1 /\ Len(cl.path) <= 2
                                /\ Kind(et) = "ptr" /\ Declarable(et)
                                /\ Kind(core) \notin {"view", "slice", "sptr"})
 
-Init == /\ c \in Cells
-        /\ c.path \in PathsFrom(c.d, MaxSteps)
-        /\ CellOK(c.ctx, c.d, c.path, c.k)
-        /\ ContextOK(c)
-Next == UNCHANGED c
+(***************************************************************************)
+(* One seed state per base; its successors are the cells of that base, so  *)
+(* that the workers enumerate, judge and emit different bases in parallel  *)
+(* (TLC generates initial states with a single thread).                    *)
+(***************************************************************************)
+IsSeed == "seed" \in DOMAIN c
+Init == c \in {[seed |-> b] : b \in Bases}
+Next == /\ IsSeed
+        /\ \E p \in PathsFrom(c.seed[2], MaxSteps), k \in 0..3, ctx \in {"assign", "read", "arg", "argmiss", "argxp"} :
+              /\ CellOK(ctx, c.seed[2], p, k)
+              /\ \E q \in Contexts : LET cl == MkCell(c.seed, p, k, ctx, q)
+                                     IN ContextOK(cl) /\ c' = cl
 
 \* the algorithm as it is meant (without the three unification quirks) implements the rule ...
-Agree == MutAgreeOn(c, FALSE)
+Agree == IsSeed \/ MutAgreeOn(c, FALSE)
 \* ... the algorithm as it is written does not (expected to be VIOLATED: MC_Mutability_defect.cfg)
-AgreeFaithful == MutAgreeOn(c, TRUE)
+AgreeFaithful == IsSeed \/ MutAgreeOn(c, TRUE)
 
-Emit == LET v == RVerdict(c)
+\* pok / pcodes: the verdict of the rule on the NEIGHBOUR of the construct (field pre), judged on its own
+Emit == IsSeed \/
+        LET v == RVerdict(c)
             a == AVerdict(c, TRUE)
             F == Final(c.d, c.path)
             ai == AVerdict(c, FALSE)
+            pv == RVerdict(PreCell(c.pre))
         IN PrintT(<<"CASE", ToJson([c |-> c, ok |-> v.ok, unc |-> v.unc, codes |-> SetToSortSeq(v.codes, <),
+                                    pok |-> pv.ok, pcodes |-> SetToSortSeq(pv.codes, <),
                                     iout |-> ai.out, icodes |-> SetToSortSeq(ai.codes, <),
                                     f |-> F, et |-> ExpectType(F, c.k), tt |-> Target(c),
                                     crossed |-> RWalk(c.d, c.path, FALSE).crossed,
